@@ -204,7 +204,8 @@ def jobs(tier, seed):
     if tier == 'thorough':
         sh = G.c05_shapes('quick', seed) + [s for s in G.depth2(32)[::7]]
         sh = list(dict.fromkeys(G.renumber(s) for s in sh))
-    idem = [('idem', s, None) for s in sh]
+    sh = sh + [G.renumber(x) for x in merge_shapes()]
+    idem = [('idem', s, None) for s in dict.fromkeys(sh)]
     # (ii) inside an embedding context: the operands of the commutative node sit in a memory address, a segment selector, a
     # condition, a slice, a non-commutative operation, a concatenation (canonical form must not depend on where the node sits)
     ctx_jobs = []
@@ -236,6 +237,30 @@ def wrap(ctx, e):
     if not ctx:
         return e
     return _ctx_table()[ctx](e, e.get_size())
+
+
+def merge_shapes():
+    """concatenations in which adjacent slices of one source merge (into a partial or a full-width slice, itself rewritable) next
+    to another component: the output of one rule is input to another"""
+    out = []
+    for wa, total in ((16, 32), (8, 16), (32, 64), (16, 24), (8, 32)):
+        rest = total - wa
+        if rest not in (8, 16, 32):
+            continue
+        A = ('id', 'A', wa)
+        others = [('id', 'B', rest), ('int', 0, rest), ('cond', ('id', 'c', rest), ('id', 'B', rest), ('int', 0, rest)), ('op', '+', (('id', 'B', rest), ('int', 0, rest)))]
+        cuts_list = [[0, wa // 2, wa], [0, wa // 4, wa // 2, wa], [0, wa // 2]] if wa >= 8 else [[0, wa]]
+        for cuts in cuts_list:
+            for other in others:
+                lo_first = tuple((('slice', A, cuts[i], cuts[i + 1]), cuts[i], cuts[i + 1]) for i in range(len(cuts) - 1))
+                if cuts[-1] == wa:
+                    out.append(('compose', lo_first + ((other, wa, total),)))
+                    hi = tuple((('slice', A, cuts[i], cuts[i + 1]), rest + cuts[i], rest + cuts[i + 1]) for i in range(len(cuts) - 1))
+                    out.append(('compose', ((other, 0, rest),) + hi))
+                else:
+                    # partial tiling: the merged slice stays a proper slice
+                    out.append(('compose', lo_first + ((('id', 'D', total - cuts[-1]), cuts[-1], total),)))
+    return [x for x in out if all(sz in (1, 8, 16, 32, 64) for _, sz in G.ints_of(x))]
 
 
 def lifted_jobs(tier, seed):
